@@ -2982,7 +2982,7 @@ static Type *union_decl(Token **rest, Token *tok) {
   // alignment and the size though.
   for (Member *mem = ty->members; mem; mem = mem->next) {
     bool is_unnamed_bitfield = mem->is_bitfield && !mem->name;
-    if (!is_unnamed_bitfield && ty->align < mem->align)
+    if ((!ty->is_packed || mem->has_alignas) && !is_unnamed_bitfield && ty->align < mem->align)
       ty->align = mem->align;
     // A bit-field occupies only the bytes its width needs.
     int sz = mem->is_bitfield ? (mem->bit_width + 7) / 8 : mem->ty->size;
